@@ -420,11 +420,11 @@ func (c *Ctx) loopExitCut(fr *Frame, li *loopInfo, st *State, reach string, pos 
 		f := c.evalBool(env, inv.Expr, inv.Text)
 		if cj := splitDeep(f); len(cj) > 1 && len(cj) <= 40 {
 			for j, g := range cj {
-				c.oblige("inv-exit", fmt.Sprintf("loop%d.%d/%d.%d", li.ordinal, nth, k, j), reach, g, pos, fmt.Sprintf("conjunct %d of: %s", j, inv.Text))
+				c.obligeProps("inv-exit", fmt.Sprintf("loop%d.%d/%d.%d", li.ordinal, nth, k, j), reach, g, pos, fmt.Sprintf("conjunct %d of: %s", j, inv.Text), inv.Props)
 			}
 			continue
 		}
-		c.oblige("inv-exit", fmt.Sprintf("loop%d.%d/%d", li.ordinal, nth, k), reach, f, pos, inv.Text)
+		c.obligeProps("inv-exit", fmt.Sprintf("loop%d.%d/%d", li.ordinal, nth, k), reach, f, pos, inv.Text, inv.Props)
 	}
 	eff := newEffects()
 	c.regionEffects(eff, fr.fn, li.blocks, 0)
@@ -474,11 +474,11 @@ func (c *Ctx) loopHead(fr *Frame, li *loopInfo, b *ssa.BasicBlock, st *State, re
 			f := c.evalBool(env, inv.Expr, inv.Text)
 			if cj := splitDeep(f); len(cj) > 1 && len(cj) <= 40 {
 				for j, g := range cj {
-					c.oblige("inv-init", fmt.Sprintf("loop%d/%d.%d", li.ordinal, k, j), reach, g, pos, fmt.Sprintf("conjunct %d of: %s", j, inv.Text))
+					c.obligeProps("inv-init", fmt.Sprintf("loop%d/%d.%d", li.ordinal, k, j), reach, g, pos, fmt.Sprintf("conjunct %d of: %s", j, inv.Text), inv.Props)
 				}
 				continue
 			}
-			c.oblige("inv-init", fmt.Sprintf("loop%d/%d", li.ordinal, k), reach, f, pos, inv.Text)
+			c.obligeProps("inv-init", fmt.Sprintf("loop%d/%d", li.ordinal, k), reach, f, pos, inv.Text, inv.Props)
 		}
 	}
 	var cands []cand
@@ -730,11 +730,11 @@ func (c *Ctx) loopBack(fr *Frame, li *loopInfo, st *State, reach string, pos tok
 			f := c.evalBool(env, inv.Expr, inv.Text)
 			if cj := splitDeep(f); len(cj) > 1 && len(cj) <= 40 {
 				for j, g := range cj {
-					c.oblige("inv-pres", fmt.Sprintf("loop%d/%d.%d", li.ordinal, k, j), reach, g, pos, fmt.Sprintf("conjunct %d of: %s", j, inv.Text))
+					c.obligeProps("inv-pres", fmt.Sprintf("loop%d/%d.%d", li.ordinal, k, j), reach, g, pos, fmt.Sprintf("conjunct %d of: %s", j, inv.Text), inv.Props)
 				}
 				continue
 			}
-			c.oblige("inv-pres", fmt.Sprintf("loop%d/%d", li.ordinal, k), reach, f, pos, inv.Text)
+			c.obligeProps("inv-pres", fmt.Sprintf("loop%d/%d", li.ordinal, k), reach, f, pos, inv.Text, inv.Props)
 		}
 		if len(spec.Decr) > 0 {
 			var now []string
